@@ -1,16 +1,16 @@
-from copy import copy
+import threading
 
 from vtlengine import _verif
 
 
 class VirtualCounter:
+    # The counters are kept per thread: calls made concurrently from several threads
+    # must number their virtual datasets / components independently.
     _instance = None
-    dataset_count: int = 0
-    component_count: int = 0
+    _counts = threading.local()
 
     def __init__(self) -> None:
-        self.dataset_count = 0
-        self.component_count = 0
+        self.reset()
 
     def __new__(cls):  # type: ignore[no-untyped-def]
         if cls._instance is None:
@@ -21,19 +21,19 @@ class VirtualCounter:
     @classmethod
     def reset(cls) -> None:
         _verif.yield_point("vc.reset")
-        cls.dataset_count = 0
-        cls.component_count = 0
+        cls._counts.dataset_count = 0
+        cls._counts.component_count = 0
 
     @classmethod
     def _new_ds_name(cls) -> str:
         _verif.yield_point("vc.new")
-        cls.dataset_count += 1
-        name = f"__VDS_{copy(cls.dataset_count)}__"
+        cls._counts.dataset_count = getattr(cls._counts, "dataset_count", 0) + 1
+        name = f"__VDS_{cls._counts.dataset_count}__"
         return name
 
     @classmethod
     def _new_dc_name(cls) -> str:
         _verif.yield_point("vc.new")
-        cls.component_count += 1
-        name = f"__VDC_{copy(cls.component_count)}__"
+        cls._counts.component_count = getattr(cls._counts, "component_count", 0) + 1
+        name = f"__VDC_{cls._counts.component_count}__"
         return name
